@@ -82,7 +82,21 @@ CPointD(g, t, id, d) ==
 
 CPoint(g, t, id) == \E d \in CFirstChoices(g) : CPointD(g, t, id, d)
 
-CNext == \E g \in Groups, t \in Times : CPoint(g, t, cn + 1)
+(* DeleteGroup for g: the group's ring, counter and schedule are dropped; if *)
+(* the group comes back it counts from one again.  (A barrier message does   *)
+(* nothing to a count window.)  Counted in cn to keep the model finite; ids  *)
+(* stay unique.                                                               *)
+CDelete(g) ==
+    /\ cn < MaxPoints
+    /\ cst[g].started
+    /\ cst' = [cst EXCEPT ![g] = CGroup0]
+    /\ crecv' = [crecv EXCEPT ![g] = <<>>]
+    /\ cout' = [cout EXCEPT ![g] = <<>>]
+    /\ cn' = cn + 1
+    /\ UNCHANGED ccfg
+
+CNext == \/ \E g \in Groups, t \in Times : CPoint(g, t, cn + 1)
+         \/ \E g \in Groups : CDelete(g)
 CSpec == CInit /\ [][CNext]_wcvars
 
 -----------------------------------------------------------------------------
